@@ -231,6 +231,7 @@ class PropCheck:
         n_ops = 0
         n_model = 0
         impl = {}; model = {}
+        op_hist = {}             # input distribution: op kind -> outcome class (ok / err / panic / ...) -> count, on the implementation
         kept_cases = []          # a thinned sample kept for the extraction cross-check and the evidence samples
         first_chunk = True
         for chunk in chunks:
@@ -260,6 +261,11 @@ class PropCheck:
                         nontriv += 1
                 n_cases += 1
                 n_ops += len(c.ops)
+                for o, l in zip(c.ops, il):
+                    kd = o.split(' ', 1)[0]
+                    cl = l[0] if l else '?'
+                    hk = op_hist.setdefault(kd, {})
+                    hk[cl] = hk.get(cl, 0) + 1
                 if not c.meta.get('impl_only'):
                     n_model += 1
                 if keep or n_cases % 97 == 1 or n_cases <= 3:
@@ -334,6 +340,7 @@ class PropCheck:
             'known_findings_matched': sorted(reported_known),
             'extraction_cross_check': {'cases_re_evaluated_in_coq_by_vm_compute': vm['sampled'], 'agreed_with_extracted_program': vm['agreed']},
             'ops_executed': n_ops,
+            'op_outcome_histogram': {k: op_hist[k] for k in sorted(op_hist, key=lambda k: -sum(op_hist[k].values()))[:40]},
             'cases_compared_with_model': n_model,
         }
         cov.update(self.stats)
